@@ -445,7 +445,13 @@ def evaluate(sc: Dict[str, Any], sseed: int, profile: Dict[str, Any], feed: Opti
     # data: the part within the limit), on top of the reference walk's own work.
     gsize = len(sc["spec"]["graph"]) if "graph" in sc["spec"] else D.count_nodes(doc)
     factor = 1 if exp.get("max_nesting") != N.INF else min(L, 300)
-    cap = max(300_000, 400 * (work + gsize * len(qast["segs"]) * factor))
+    # ... and against the size of what a node IS: every node carries its location, which is as
+    # long as the node is deep, so building (or rendering) the locations of a chain costs the
+    # square of its depth -- in C for a tree that concatenates tuples, in counted Python steps
+    # for one that builds them in a loop.
+    mn_ = exp.get("max_nesting")
+    dq = int(min(L, mn_ if mn_ != N.INF else L)) ** 2
+    cap = max(300_000, 400 * (work + gsize * len(qast["segs"]) * factor) + 8 * dq * len(qast["segs"]))
     sim = simrandom.SimRandom(sseed, profile, feed)
     simrandom.install(sim)
     env = env_for(L, sc["nondet"], sc.get("config", "class"))
@@ -457,7 +463,7 @@ def evaluate(sc: Dict[str, Any], sseed: int, profile: Dict[str, Any], feed: Opti
     def one(call: Any) -> Dict[str, Any]:
         try:
             nodes = list(call())
-            return {"status": "ok", "locs": [list(n.location) for n in nodes]}
+            return {"status": "ok", "nodes": nodes}
         except StepBudgetExceeded:
             return {"status": "step-budget"}
         except jp.JSONPathRecursionError:
@@ -499,6 +505,10 @@ def evaluate(sc: Dict[str, Any], sseed: int, profile: Dict[str, Any], feed: Opti
                             obs = one(lambda: compiled.finditer(doc))
                         else:
                             obs = one(lambda: env.find(text, doc))
+                        saved, cap0 = clock.steps, clock.cap
+                        clock.cap = 1 << 62  # the harness reading the result is not the evaluation
+                        _locs_of(obs)
+                        clock.steps, clock.cap = saved, cap0
                         applications = k + 1
                         obs["application"] = k + 1
                         obs["entry"] = entry
@@ -512,7 +522,15 @@ def evaluate(sc: Dict[str, Any], sseed: int, profile: Dict[str, Any], feed: Opti
                             break
     finally:
         simrandom.uninstall()
+    _locs_of(obs)
     return {"text": text, "exp": exp, "obs": obs, "steps": clock.steps, "cap": cap, "trace": sim.log, "applications": applications}
+
+
+def _locs_of(obs: Dict[str, Any]) -> None:
+    """Read the locations of the result nodes -- the harness's own reading of the result, outside
+    the clocked evaluation."""
+    if "nodes" in obs:
+        obs["locs"] = [list(n.location) for n in obs.pop("nodes")]
 
 
 def judge(sc: Dict[str, Any], ev: Dict[str, Any]) -> Optional[Tuple[str, str]]:
